@@ -249,6 +249,17 @@ class FakeSocket:
             self.net.flags.append(("io-on-closed-socket", self.net.call, {"sock": self.id, "op": kind}))
             raise OSError(errno.EBADF, "Bad file descriptor")
 
+    def _check_epoch(self):
+        srv = getattr(self, "server", None)
+        if getattr(self.net, "restarts_kill_connections", False) and srv is not None and not self.dead and getattr(srv, "epoch", 0) != getattr(self, "epoch", 0):
+            # the server process this connection was made to is gone (it may have been restarted since): the connection is dead
+            # (only in worlds that ask for it - net.restarts_kill_connections -: most histories let an outage end as a network
+            # partition ends, with the old connections usable again)
+            self.dead = True
+            self.rx.clear()
+            self.net.fired.append({"fault": {"what": "reset", "kind": "stale-connection", "server_down": True}, "sock": self.id})
+            self.faulted_in.add(self.net.call)
+
     def fileno(self):
         return 1000 + self.id
 
@@ -292,6 +303,7 @@ class FakeSocket:
             raise ConnectionRefusedError(errno.ECONNREFUSED, "Connection refused")
         self.peer = srv.connect()
         self.server = srv
+        self.epoch = getattr(srv, "epoch", 0)
         self.connected = True
 
     def sendall(self, data):
@@ -300,6 +312,7 @@ class FakeSocket:
         self._check_usable("sendall")
         self.used_in.add(net.call)
         self.io_timeouts.append(("sendall", self.timeout_now))
+        self._check_epoch()
         if not self.connected or self.dead:
             raise BrokenPipeError(errno.EPIPE, "Broken pipe")
         srv = getattr(self, "server", None)
@@ -400,6 +413,7 @@ class FakeSocket:
         self._check_usable("recv")
         self.used_in.add(net.call)
         self.io_timeouts.append(("recv", self.timeout_now))
+        self._check_epoch()
         if self.dead:
             raise ConnectionResetError(errno.ECONNRESET, "Connection reset by peer")
         if f is not None:
